@@ -2081,7 +2081,78 @@ def check_c07(ctx):
     return rep.finish()
 
 
+# ------------------------------------------------------------------------------ C16 static size annotations
+def check_c16(ctx):
+    rep = Report("C16", ctx.tier, ctx.seed)
+    units = make_units(kit.build(ctx.tier) + kit.schema_descs(ctx.tier), endians=("little",))
+    compile_units(ctx.driver(), units, ["analyze", "schema"])
+    acc = [u for u in units if u.status == "accepted"]
+    jobs = []
+    pos = {u.name: k + 1 for k, u in enumerate(units)}
+    for u in acc:
+        jobs.append(dict(d=pos[u.name], type="", anc="", mode="schema", n=0))
+        jobs.append(dict(d=pos[u.name], type="", anc="", mode="info", n=0))
+        for t in u.types():
+            # the model-level soundness theorem is checked on every value vector of every type
+            jobs.append(dict(d=pos[u.name], type=t, anc="", mode="enc", n=0))
+    vecs, info = run_jobs(ctx, units, jobs, rep)
+    nvals = sum(1 for v in vecs if v["k"] == "enc")
+    for v in vecs:
+        if v["k"] != "schema":
+            continue
+        u = v["unit"]
+        got = u.resp.get("schema", {})
+        if "ok" not in got:
+            rep.violation("C16|analyzer|%s|schema_abnormal" % u.name,
+                          {"desc": u.desc, "pdl": u.src, "observed": got})
+            continue
+        impl = {x["id"]: x for x in got["ok"]}
+        for sd in v["schema"]:
+            rep.validated()
+            im = impl.get(sd["id"])
+            if im is None:
+                rep.violation("C16|analyzer|%s|%s|missing_decl" % (u.name, sd["id"]), {"desc": u.desc, "pdl": u.src})
+                continue
+            for key in ("decl_size", "parent_size", "payload_size", "total_size"):
+                if im[key] != sd[key]:
+                    rep.violation("C16|analyzer|%s|%s|%s:%s_expected_%s" % (u.name, sd["id"], key, im[key]["k"], sd[key]["k"]),
+                                  {"desc": u.desc, "pdl": u.src, "decl": sd["id"], "query": key,
+                                   "expected": sd[key], "observed": im[key]})
+            imf = {f["i"]: f for f in im["fields"]}
+            for sf in sd["fields"]:
+                f = imf.get(sf["i"])
+                if f is None:
+                    rep.violation("C16|analyzer|%s|%s|missing_field_%d" % (u.name, sd["id"], sf["i"]), {"desc": u.desc, "pdl": u.src})
+                    continue
+                if f["field_size"] != sf["field_size"]:
+                    rep.violation("C16|analyzer|%s|%s.%d|field_size:%s_expected_%s" % (u.name, sd["id"], sf["i"], f["field_size"]["k"], sf["field_size"]["k"]),
+                                  {"desc": u.desc, "pdl": u.src, "decl": sd["id"], "field": sf["i"], "query": "field_size",
+                                   "expected": sf["field_size"], "observed": f["field_size"]})
+                if f["padded_size"] != sf["padded_size"]:
+                    rep.violation("C16|analyzer|%s|%s.%d|padded_size" % (u.name, sd["id"], sf["i"]),
+                                  {"desc": u.desc, "pdl": u.src, "decl": sd["id"], "field": sf["i"], "query": "padded_size",
+                                   "expected": sf["padded_size"], "observed": f["padded_size"]})
+                if "element_size" in f:
+                    if f["element_size"] != sf["element_size"]:
+                        rep.violation("C16|analyzer|%s|%s.%d|element_size" % (u.name, sd["id"], sf["i"]),
+                                      {"desc": u.desc, "pdl": u.src, "decl": sd["id"], "field": sf["i"], "query": "element_size",
+                                       "expected": sf["element_size"], "observed": f["element_size"]})
+                    if f["array_size"] != sf["array_size"]:
+                        rep.violation("C16|analyzer|%s|%s.%d|array_size" % (u.name, sd["id"], sf["i"]),
+                                      {"desc": u.desc, "pdl": u.src, "decl": sd["id"], "field": sf["i"], "query": "array_size",
+                                       "expected": sf["array_size"], "observed": f["array_size"]})
+            if rep.coverage["traces_validated_against_impl"] % 97 == 1:
+                rep.sample({"desc": u.name, "decl": sd["id"], "total_size": sd["total_size"],
+                            "fields": [[x["i"], x["field_size"]] for x in sd["fields"]][:6]})
+    rep.notes["descriptions"] = len(acc)
+    rep.notes["value_vectors_checked_against_static_sizes_in_model"] = nvals
+    rep.assumptions += ["size classes are defined from their meaning in spec/PdlSchema.tla; SizeSoundInv ties Static(n) to the reference encoder on every value vector",
+                        "the driver reads Schema::{field,decl,parent,payload,total,padded}_size and element_size/array_size of the analyzed file"]
+    return rep.finish()
+
+
 CHECKS = {p: (lambda ctx, p=p: check_rust_codec(p, ctx)) for p in CODEC_MODES}
+CHECKS["C16"] = check_c16
 CHECKS["C07"] = check_c07
 CHECKS["C19"] = check_c19
 CHECKS["C14"] = check_c14
